@@ -11,8 +11,9 @@ Theorems: `C19_table_watson_crick`, `C19_table_involution`, `C19_table_eq` (fini
 `C19_complement` (model = specification, literally, for every strand; induction over the loop),
 `C19_second_strand` (what that means residue by residue and edge by edge), `C19_reject`,
 `C19_involutive`, `C19_involutive_model`, `C19_spec_defined_iff`, `C19_labels_literal`;
-for residue graphs whose node keys start at any `k0` (`.json` input): `C19_complement_offset`,
-`C19_reject_offset`, `C19_offset_zero`, `C19_key_shift_equivariant`; for the `gen_params -dsdna` pipeline
+for residue graphs whose node keys start at any `k0` and whose resids start at any `r0` (`.json` input,
+the added strand itself): `C19_complement_offset`, `C19_reject_offset` (keys only: `…_offset_key`),
+`C19_offset_zero`, `C19_offset_one`, `C19_key_shift_equivariant`, `C19_resid_shift_equivariant`; for the `gen_params -dsdna` pipeline
 (strand from `-seq` or `-seqf`): `C19_gen_params_dsdna`.
 The model (`Model/Dna.lean`) is tied to the real code by the correspondence in `harness/c19.py`.
 
@@ -218,7 +219,7 @@ on the strand whose node keys are `k0..k0+n-1` (resids `1..n`) the model returns
 by the antiparallel Watson–Crick complement, edges `(k0+n+k, k0+n+k+1)` with the mirrored labels, closing
 edge `(k0+2n-1, k0+n)` iff circular.  Proof: `Proofs.Dna.complement_shift` (the model commutes with
 renaming the keys `x ↦ x + k0` of any residue graph) applied to `C19_complement`'s graph. -/
-theorem C19_complement_offset (k0 : Nat) (names : List String) (labels : List Attrs) (circ : Option Attrs)
+theorem C19_complement_offset_key (k0 : Nat) (names : List String) (labels : List Attrs) (circ : Option Attrs)
     (hn : 1 ≤ names.length) (hc : circ.isSome → 3 ≤ names.length)
     (hk : ∀ nm ∈ names, (lookup Tables.baseLibrary nm).isSome) :
     ∃ g, specGraphFrom k0 watsonCrick names labels circ = some g ∧
@@ -228,11 +229,11 @@ theorem C19_complement_offset (k0 : Nat) (names : List String) (labels : List At
 
 example : ∃ g, specGraphFrom 7 watsonCrick ["DA5", "DC", "DG3"] [[("a", "1")], [("b", "2")]] none = some g ∧
     complement Tables.baseLibrary (strandGraphFrom 7 ["DA5", "DC", "DG3"] [[("a", "1")], [("b", "2")]] none) = .ok g :=
-  C19_complement_offset 7 _ _ _ (by decide) (by decide) (by decide)
+  C19_complement_offset_key 7 _ _ _ (by decide) (by decide) (by decide)
 
 example : ∃ g, specGraphFrom 4 watsonCrick ["DA", "DC", "DG", "DT"] [] (some [("linktype", "circle")]) = some g ∧
     complement Tables.baseLibrary (strandGraphFrom 4 ["DA", "DC", "DG", "DT"] [] (some [("linktype", "circle")])) = .ok g :=
-  C19_complement_offset 4 _ _ _ (by decide) (by decide) (by decide)
+  C19_complement_offset_key 4 _ _ _ (by decide) (by decide) (by decide)
 
 -- by evaluation (a test): keys 1..3 get the complement on keys 4..6, resids 4..6
 example : (complement Tables.baseLibrary (strandGraphFrom 1 ["DA5", "DC", "DG3"] [[("a", "1")], []] none)).toOption =
@@ -249,7 +250,7 @@ example : strandGraphFrom 0 ["DA5", "DG3"] [[("a", "1")]] none = ⟨[⟨0, 1, "D
   decide
 
 /-- **Rejection for arbitrary first node key.** -/
-theorem C19_reject_offset (k0 : Nat) (names : List String) (labels : List Attrs) (circ : Option Attrs)
+theorem C19_reject_offset_key (k0 : Nat) (names : List String) (labels : List Attrs) (circ : Option Attrs)
     (hn : 1 ≤ names.length) (hc : circ.isSome → 3 ≤ names.length)
     (hbad : ∃ nm ∈ names, lookup watsonCrick nm = none) :
     complement Tables.baseLibrary (strandGraphFrom k0 names labels circ) = .error "unknown-resname" := by
@@ -258,7 +259,7 @@ theorem C19_reject_offset (k0 : Nat) (names : List String) (labels : List Attrs)
   exact ⟨nm, hm, by rw [C19_table_eq]; exact hnone⟩
 
 example : complement Tables.baseLibrary (strandGraphFrom 4 ["DA5", "XYDC", "DG3"] [] none) = .error "unknown-resname" :=
-  C19_reject_offset 4 _ _ _ (by decide) (by decide) ⟨"XYDC", by decide, by decide⟩
+  C19_reject_offset_key 4 _ _ _ (by decide) (by decide) ⟨"XYDC", by decide, by decide⟩
 
 /-- **Equivariance (the reason the offset does not matter).**  For *every* residue graph — not only
 strands — renaming the node keys `x ↦ x + k` commutes with the model of `complement_dsDNA`. -/
@@ -267,6 +268,65 @@ theorem C19_key_shift_equivariant (g : RGraph) (k : Nat) :
   Proofs.Dna.complement_shift Tables.baseLibrary g k
 
 example : (strandGraph ["DA", "DC", "DG"] [] (some [])).shiftKeys 4 = strandGraphFrom 4 ["DA", "DC", "DG"] [] (some []) := by
+  decide
+
+/-! ### resids that do not start at 1 (`.json` residue graphs; the added strand itself) -/
+
+/-- **Main theorem for arbitrary first node key AND first resid (unbounded in `k0`, `r0`, the strand).**
+On the strand with node keys `k0..k0+n-1` and resids `r0..r0+n-1` (`max_resid = r0+n-1`) the model returns
+literally `specGraphAt k0 r0`: the strand unchanged, new nodes with keys `k0+n..k0+2n-1` and resids
+`r0+n..r0+2n-1` (numbering continues after `max_resid`) named by the antiparallel Watson–Crick complement,
+the mirrored labelled edges, the closing edge iff circular.  In particular (k0 := k0+n, r0 := r0+n) this
+covers the strand that a first completion ADDED, circular included: complementing it again closes the
+ring again.  Proof: `Proofs.Dna.complement_shiftResids` (the model commutes with renumbering the resids
+of any residue graph) and `C19_complement_offset_key`. -/
+theorem C19_complement_offset (k0 r0 : Nat) (names : List String) (labels : List Attrs) (circ : Option Attrs)
+    (hn : 1 ≤ names.length) (hc : circ.isSome → 3 ≤ names.length)
+    (hk : ∀ nm ∈ names, (lookup Tables.baseLibrary nm).isSome) :
+    ∃ g, specGraphAt k0 r0 watsonCrick names labels circ = some g ∧
+      complement Tables.baseLibrary (strandGraphAt k0 r0 names labels circ) = .ok g := by
+  rw [← Proofs.Dna.specGraphAt_congr k0 r0 Tables.baseLibrary watsonCrick C19_table_eq]
+  exact Proofs.Dna.complement_at k0 r0 Tables.baseLibrary names labels circ hn hc hk
+
+example : ∃ g, specGraphAt 7 101 watsonCrick ["DA", "DC", "DG"] [[("a", "0")], []] (some []) = some g ∧
+    complement Tables.baseLibrary (strandGraphAt 7 101 ["DA", "DC", "DG"] [[("a", "0")], []] (some [])) = .ok g :=
+  C19_complement_offset 7 101 _ _ _ (by decide) (by decide) (by decide)
+
+-- by evaluation (a test): a ring with keys 3..5, resids 4..6 and an UNLABELLED closing edge — i.e. the
+-- strand a first completion added — gets a ring as complement
+example : (complement Tables.baseLibrary (strandGraphAt 3 4 ["DC", "DG", "DT"] [] (some []))).toOption =
+    some ⟨[⟨3, 4, "DC"⟩, ⟨4, 5, "DG"⟩, ⟨5, 6, "DT"⟩, ⟨6, 7, "DA"⟩, ⟨7, 8, "DC"⟩, ⟨8, 9, "DG"⟩],
+         [⟨3, 4, []⟩, ⟨3, 5, []⟩, ⟨4, 5, []⟩, ⟨6, 7, []⟩, ⟨7, 8, []⟩, ⟨8, 6, []⟩], 9⟩ := by decide
+
+/-- `C19_complement_offset_key` is the `r0 = 1` instance. -/
+theorem C19_offset_one (k0 : Nat) (names : List String) (labels : List Attrs) (circ : Option Attrs) :
+    strandGraphAt k0 1 names labels circ = strandGraphFrom k0 names labels circ ∧
+    specGraphAt k0 1 watsonCrick names labels circ = specGraphFrom k0 watsonCrick names labels circ :=
+  ⟨Proofs.Dna.strandGraphAt_one k0 names labels circ,
+   Proofs.Dna.specGraphAt_one k0 watsonCrick names labels circ⟩
+
+example : strandGraphAt 0 1 ["DA5", "DG3"] [[("a", "1")]] none = strandGraph ["DA5", "DG3"] [[("a", "1")]] none := by
+  decide
+
+/-- **Rejection for arbitrary first node key and first resid.** -/
+theorem C19_reject_offset (k0 r0 : Nat) (names : List String) (labels : List Attrs) (circ : Option Attrs)
+    (hn : 1 ≤ names.length) (hc : circ.isSome → 3 ≤ names.length)
+    (hbad : ∃ nm ∈ names, lookup watsonCrick nm = none) :
+    complement Tables.baseLibrary (strandGraphAt k0 r0 names labels circ) = .error "unknown-resname" := by
+  apply Proofs.Dna.complement_reject_at k0 r0 Tables.baseLibrary names labels circ hn hc
+  obtain ⟨nm, hm, hnone⟩ := hbad
+  exact ⟨nm, hm, by rw [C19_table_eq]; exact hnone⟩
+
+example : complement Tables.baseLibrary (strandGraphAt 4 11 ["DA5", "XYDC", "DG3"] [] none) = .error "unknown-resname" :=
+  C19_reject_offset 4 11 _ _ _ (by decide) (by decide) ⟨"XYDC", by decide, by decide⟩
+
+/-- **Equivariance in the resids.**  For *every* residue graph, renumbering the resids `r ↦ r + d`
+commutes with the model of `complement_dsDNA`. -/
+theorem C19_resid_shift_equivariant (g : RGraph) (d : Nat) :
+    complement Tables.baseLibrary (g.shiftResids d) = (complement Tables.baseLibrary g).map (·.shiftResids d) :=
+  Proofs.Dna.complement_shiftResids Tables.baseLibrary g d
+
+example : (strandGraphAt 4 0 ["DA", "DC", "DG"] [] (some [])).shiftResids 5 = strandGraphAt 4 5 ["DA", "DC", "DG"] [] (some []) := by
   decide
 
 /-! ### the `gen_params … -dsdna` pipeline (`gen_itp.py`) -/
@@ -288,13 +348,13 @@ theorem C19_gen_params_dsdna (inp : SeqInput)
   rw [h2, List.map_congr_left (fun nm _ => C19_table_eq nm)]
 
 example := C19_gen_params_dsdna (.seq ["DA5", "DC", "DG3"]) (by decide) (by decide) (by decide)
-example := C19_gen_params_dsdna (.seqFile 4 ["DA", "DC", "DG", "DT"] [] (some [("linktype", "circle")]))
+example := C19_gen_params_dsdna (.seqFile 4 1 ["DA", "DC", "DG", "DT"] [] (some [("linktype", "circle")]))
   (by decide) (by decide) (by decide)
 
 -- by evaluation (tests): both sources, with and without the flag
 example : ((genParamsDsdna Tables.baseLibrary (.seq ["DA5", "DC", "DG3"]) true).toOption.map
     (·.nodes.map (·.resname))) = some ["DA5", "DC", "DG3", "DC5", "DG", "DT3"] := by decide
-example : ((genParamsDsdna Tables.baseLibrary (.seqFile 1 ["DA5", "DC", "DG3"] [] none) true).toOption.map
+example : ((genParamsDsdna Tables.baseLibrary (.seqFile 1 101 ["DA5", "DC", "DG3"] [] none) true).toOption.map
     (·.nodes.map (·.resname))) = some ["DA5", "DC", "DG3", "DC5", "DG", "DT3"] := by decide
 example : ((genParamsDsdna Tables.baseLibrary (.seq ["DA5", "DC", "DG3"]) false).toOption.map
     (·.nodes.map (·.resname))) = some ["DA5", "DC", "DG3"] := by decide
